@@ -12,7 +12,8 @@ import Mathlib.Tactic.FieldSimp
 # C17 — elementary and reduction functions return their mathematical values
 
 Theorems about the executable models of `Model/MathFns.lean` (the formulas `lib/math.cpp`,
-`include/dsplib/math.h`, `lib/utils.cpp`, `include/dsplib/utils.h` evaluate, in the code's operation order).
+`include/dsplib/math.h`, `lib/utils.cpp`, `include/dsplib/utils.h` evaluate, in the code's operation order) and, for the
+dB conversions and `abs2(real_t)`, about the definitions regenerated from the C++ AST (`Gen/Dynamics.lean`).
 
 * Part (a), shape / index functions — for EVERY element type `β`, every length and every argument:
   integer `arange` (count = `⌈(stop-start)/step⌉` clamped at 0; lists `start + k·step` for EXACTLY the
@@ -660,35 +661,38 @@ theorem crms_eq (x : Array (Cx ℝ)) : crms x = Real.sqrt ((x.toList.map (fun v 
   intro v _
   rw [Complex.sq_norm, Complex.normSq_apply]; rfl
 
-/-! ### dB / degree conversions and their round trips -/
+/-! ### dB / degree conversions and their round trips
+
+The dB conversions and `abs2(real_t)` are the definitions REGENERATED from the C++ AST
+(`Gen/Dynamics.lean`: `Gen.pow2db`, `Gen.db2pow`, `Gen.mag2db`, `Gen.db2mag`, `Gen.abs2r`), not hand copies. -/
 theorem log10_pos : (0 : ℝ) < Real.log 10 := Real.log_pos (by norm_num)
 
-/-- round trip `pow2db ∘ db2pow = id` -/
-theorem pow2db_db2pow (v : ℝ) : pow2db (db2pow v) = v := by
-  simp only [pow2db, db2pow, fn_log10, fn_pow, fn_ofNat]
+/-- round trip `pow2db ∘ db2pow = id` (generated definitions) -/
+theorem pow2db_db2pow (v : ℝ) : Gen.pow2db (Gen.db2pow v) = v := by
+  simp only [Gen.pow2db, Gen.db2pow, fn_log10, fn_pow, fn_ofInt]
   rw [Real.log_rpow (by norm_num)]
   have := log10_pos.ne'
   push_cast
   field_simp
 
-/-- round trip `db2pow ∘ pow2db = id` on positive powers -/
-theorem db2pow_pow2db (x : ℝ) (hx : 0 < x) : db2pow (pow2db x) = x := by
-  simp only [pow2db, db2pow, fn_log10, fn_pow, fn_ofNat]
+/-- round trip `db2pow ∘ pow2db = id` on positive powers (generated definitions) -/
+theorem db2pow_pow2db (x : ℝ) (hx : 0 < x) : Gen.db2pow (Gen.pow2db x) = x := by
+  simp only [Gen.pow2db, Gen.db2pow, fn_log10, fn_pow, fn_ofInt]
   push_cast
   have : (10 : ℝ) * (Real.log x / Real.log 10) / 10 = Real.logb 10 x := by rw [Real.logb]; ring
   rw [this, Real.rpow_logb (by norm_num) (by norm_num) hx]
 
-/-- round trip `mag2db ∘ db2mag = id` -/
-theorem mag2db_db2mag (v : ℝ) : mag2db (db2mag v) = v := by
-  simp only [mag2db, db2mag, fn_log10, fn_pow, fn_ofNat]
+/-- round trip `mag2db ∘ db2mag = id` (generated definitions) -/
+theorem mag2db_db2mag (v : ℝ) : Gen.mag2db (Gen.db2mag v) = v := by
+  simp only [Gen.mag2db, Gen.db2mag, fn_log10, fn_pow, fn_ofInt]
   rw [Real.log_rpow (by norm_num)]
   have := log10_pos.ne'
   push_cast
   field_simp
 
-/-- round trip `db2mag ∘ mag2db = id` on positive magnitudes -/
-theorem db2mag_mag2db (x : ℝ) (hx : 0 < x) : db2mag (mag2db x) = x := by
-  simp only [mag2db, db2mag, fn_log10, fn_pow, fn_ofNat]
+/-- round trip `db2mag ∘ mag2db = id` on positive magnitudes (generated definitions) -/
+theorem db2mag_mag2db (x : ℝ) (hx : 0 < x) : Gen.db2mag (Gen.mag2db x) = x := by
+  simp only [Gen.mag2db, Gen.db2mag, fn_log10, fn_pow, fn_ofInt]
   push_cast
   have : (20 : ℝ) * (Real.log x / Real.log 10) / 20 = Real.logb 10 x := by rw [Real.logb]; ring
   rw [this, Real.rpow_logb (by norm_num) (by norm_num) hx]
@@ -707,9 +711,16 @@ theorem rad2deg_deg2rad (x : ℝ) : rad2deg (deg2rad x) = x := by
   push_cast
   field_simp
 
-/-- the conversions are the definitions -/
-theorem pow2db_eq (x : ℝ) : pow2db x = 10 * Real.logb 10 x := by simp [pow2db, Real.logb]
-theorem db2pow_eq (v : ℝ) : db2pow v = (10 : ℝ) ^ (v / 10) := by simp [db2pow]
+/-- the conversions (generated from `lib/math.cpp`) are the definitions: `pow2db x = 10 log₁₀ x` -/
+theorem pow2db_eq (x : ℝ) : Gen.pow2db x = 10 * Real.logb 10 x := by simp [Gen.pow2db, Real.logb]
+/-- `db2pow v = 10^(v/10)` -/
+theorem db2pow_eq (v : ℝ) : Gen.db2pow v = (10 : ℝ) ^ (v / 10) := by simp [Gen.db2pow]
+/-- `mag2db x = 20 log₁₀ x` -/
+theorem mag2db_eq (x : ℝ) : Gen.mag2db x = 20 * Real.logb 10 x := by simp [Gen.mag2db, Real.logb]
+/-- `db2mag v = 10^(v/20)` -/
+theorem db2mag_eq (v : ℝ) : Gen.db2mag v = (10 : ℝ) ^ (v / 20) := by simp [Gen.db2mag]
+/-- `abs2(real_t)` (generated from `include/dsplib/math.h`) is the square -/
+theorem abs2r_eq (x : ℝ) : Gen.abs2r x = x ^ 2 := by simp [Gen.abs2r, pow_two]
 theorem deg2rad_eq (x : ℝ) : deg2rad x = x * Real.pi / 180 := by simp [deg2rad]; ring
 theorem rad2deg_eq (x : ℝ) : rad2deg x = x * 180 / Real.pi := by simp [rad2deg]; ring
 
